@@ -2,7 +2,8 @@
 from . import core_check
 
 ASBUILT = ["del_marker_claims_reindented_line", "initial_is_line_numbers_only",
-           "stale_entry_applied_by_line_number", "irebase_pairs_by_position", "pick_concluded_by_commit"]
+           "stale_entry_applied_by_line_number", "irebase_pairs_by_position", "pick_concluded_by_commit",
+           "index_only_lines_unattributed"]
 
 # A file without a final newline makes the identity of its last line depend on its position (the same text is
 # "changed" for git when a line is appended after it), so that family is used only where every commit takes
@@ -24,6 +25,7 @@ G_ALL = ["G_C01_Exact", "G_C02_Carried", "G_C01_OnlyAdded", "G_C03_Notes", "G_C0
 EDIT_COMMIT = ("edit", "ckpt", "commit_all")
 
 PARTIAL = ("edit", "ckpt", "add", "add_hunk", "add_lines", "commit_all", "commit_staged", "commit_paths")
+UNSTAGE_DEL = ("edit_ins", "edit_del", "ckpt", "add", "commit_staged", "commit_all", "unstage_del")
 DESTRUCTIVE = ("edit", "ckpt", "commit_all", "reset_hard", "reset_keep", "checkout_paths", "restore", "stash")
 CARRY = ("edit", "ckpt", "commit_all", "reset_keep", "stash")
 DECORATED = ("edit", "ckpt", "commit_all", "readonly", "ckpt_repeat", "dryrun")
@@ -66,6 +68,11 @@ PLANS = {
             dict(name="conflicts", consts=consts(alphabet=CONFLICT, steps=9, commits=6, uid=4, lines=4,
                                                  sessions=("S1",)), invariants=G_ALL, budget=150,
                  variants=RENDERS[:4], per_tag=2),
+            # --skip: the conflicting commit is dropped, later commits of the same command still carry AI lines
+            dict(name="skip", consts=consts(alphabet=("edit_ins", "ckpt", "commit_all", "branch", "switch", "conflict_skip"),
+                                            steps=11, commits=6, uid=5, lines=4, sessions=("S1",)), invariants=G_ALL,
+                 budget=100, variants=RENDERS[:1] + RENDERS[2:4], per_tag=3,
+                 require_action=("CherryPickManyR", "RebaseR")),
             dict(name="carry", consts=consts(alphabet=CARRY, steps=6, commits=3, lines=3), invariants=G_ALL,
                  budget=200, variants=RENDERS[:4]),
             dict(name="amend", consts=consts(alphabet=AMEND, steps=6, commits=4, lines=4, sessions=("S1",)),
@@ -125,13 +132,16 @@ PLANS = {
     "C04": {
         "clauses": ["C02_Carried", "C01_OnlyAdded", "C03_Notes"],
         "quick": [
-            dict(name="partial", consts=consts(alphabet=PARTIAL, steps=6, commits=3, lines=3), invariants=G_ALL,
-                 budget=260, variants=RENDERS[:4]),
+            dict(name="partial", consts=consts(alphabet=PARTIAL, steps=6, commits=3, lines=4, sessions=("S1",)),
+                 invariants=G_ALL, budget=300, variants=RENDERS[:4]),
             # several separate insertion hunks in one file (an agent inserting at two or three places at once),
             # staged by hunk or by line, committed in two steps
             dict(name="hunks", consts=consts(alphabet=HUNKS, steps=6, commits=3, lines=6, uid=6, sessions=("S1",), base=3),
                  invariants=G_ALL, budget=200, variants=[("plain", "plain"), ("crlf", "spaces"), ("multibyte", "plain")],
                  per_tag=2, require_action=("Stage",)),
+            # work tree edited further after staging: lines deleted again by hand before the index is committed
+            dict(name="unstage-del", consts=consts(alphabet=UNSTAGE_DEL, steps=6, commits=3, lines=4, sessions=("S1",)),
+                 invariants=G_ALL, budget=180, variants=RENDERS[:3], per_tag=2, require_action=("Stage",)),
             dict(name="hunks2", consts=consts(alphabet=("burst2", "ckpt", "add_hunk", "add_lines", "commit_staged", "commit_all"),
                                               steps=5, commits=3, lines=9, uid=9, sessions=("S1",), base=3),
                  invariants=G_ALL, budget=220, variants=[("plain", "plain"), ("crlf", "spaces")], per_tag=2,
@@ -352,6 +362,10 @@ PLANS["C19"] = {
              per_tag=1, extra={"stats": True}),
         dict(name="unborn", consts=consts(alphabet=EDIT_COMMIT, steps=5, init="unborn", uid=4), invariants=[],
              budget=60, variants=RENDERS[:2], extra={"stats": True}),
+        # several sessions in one file of one commit, stacked and interleaved
+        dict(name="sessions", consts=consts(alphabet=("edit_ins", "ckpt", "commit_all"), steps=7, commits=2, uid=5, lines=5,
+                                            sessions=("S1", "S2")), invariants=[], budget=120, variants=RENDERS[:2],
+             per_tag=2, extra={"stats": True}, require_tag=("sessions-interleaved", "sessions-stacked")),
     ],
     "thorough": [
         dict(name="partial", consts=consts(files=("f", "g"), alphabet=PARTIAL, steps=6, commits=3, uid=5, lines=3),
@@ -608,7 +622,7 @@ def trk_consts(maxold, maxfresh, moves, authors=("H", "A1"), reporters=("H", "A1
 
 
 TRK_VARIANTS = [(f, p) for f in _fn.TRK_FAMILIES for p in _fn.TRK_PRIORS]
-TRK_STRICT = [(f, p) for f in ("plain", "crlf", "nonl", "multibyte", "long") for p in ("exact", "merged", "unsorted")]
+TRK_STRICT = [(f, p) for f in ("plain", "crlf", "nonl", "multibyte", "long", "uniws") for p in ("exact", "merged", "unsorted")]
 PLANS["C16"] = {
     "clauses": ["C16_Total", "C16_Bounded", "C16_Chars", "C16_Lines", "C16_RoundTrip"],
     "module": "Tracker.tla", "const_keys": ["MaxOld", "MaxFresh", "Authors", "Reporters", "WithMoves", "Dev", "Mode"],
